@@ -52,6 +52,14 @@ def judge(run, pid, module, cases, nontrivial, describe, hang_timeout=20, known_
         if not part:
             break
         obs = run_harness("bbi", part, run.wd, hang_timeout=hang_timeout)
+        if SWEEP:
+            with open(os.path.join(WORK, "notok_%s.ndjson" % pid), "a") as f:
+                for o in obs:
+                    if o["obs"].get("result") != "ok":
+                        f.write(json.dumps(o)[:4000] + "\n")
+            run.cov["traces_validated_against_impl"] += len(obs)
+            del obs
+            continue
         lines = []
         for o in obs:
             o.pop("case", None)
